@@ -48,9 +48,64 @@ pub fn deep_blocks(spec: SpecId) -> Vec<Case> {
     ]
 }
 
+/// Wide blocks (8-9 transactions drawn from the general alphabet, several independent conflict
+/// clusters, invalid transactions in the middle, dependencies at distance > 1): far beyond what
+/// the deviation bound can explore deeply, so they are run at bounds 0-1 (thorough: 2) with 2-4
+/// workers. They add shapes the 2-3 transaction drivers cannot have: a transaction with two
+/// distinct predecessors, validation windows spanning several transactions, a commit prefix that
+/// grows while far-away transactions are still being retried.
+pub fn wide_blocks(spec: SpecId) -> Vec<Case> {
+    let db = general::std_world();
+    let ts = general::templates();
+    let pick = |l: &str| ts.iter().position(|t| t.label == l).unwrap_or_else(|| panic!("no template {l}"));
+    let mut blocks: Vec<(&str, Vec<&str>)> = vec![
+        ("mixed", vec!["xfer(e0>e1)", "fund(e0>e4)", "xfer(e4>e1)", "incr(e1)", "incr(e2)", "ind.set7(e2)", "ind.step(e3)", "gate.go(e3)"]),
+        (
+            "lifecycle",
+            vec!["vault.destroy(e2)", "probe(vault)(e3)", "probeslot(vault,1)(e1)", "factory.create2(e2)", "child.set(3,9)(e3)", "cbreader(e1)", "relay-revert(incr)(e3)", "incr(e1)"],
+        ),
+        (
+            "invalid-inside",
+            vec!["xfer(e0>e1)", "incr(e1)", "nofunds(e5)", "xfer(e1>e0)", "nonce+5(e0)", "xfer(e0>e1)", "gate.set1(e2)", "gate.go(e3)", "cbreader(e1)"],
+        ),
+        ("two-predecessors", vec!["incr(e1)", "fund(e0>e4)", "ind.set7(e2)", "xfer(e4>e1)", "incr(e2)", "ind.step(e3)", "xfer(e1>e0)", "incr(e1)"]),
+    ];
+    if spec.is_enabled_in(SpecId::PRAGUE) {
+        blocks.push(("delegation", vec!["7702set(e3>incr)(e2)", "incr(e1)", "xfer(e1>e0)", "1559(e0>e1,tip2)", "incr(e2)", "gate.go(e3)", "xfer(e0>e1)", "cbreader(e1)"]));
+    }
+    blocks
+        .into_iter()
+        .filter_map(|(name, labels)| {
+            let seq: Vec<usize> = labels.iter().map(|l| pick(l)).collect();
+            let mut c = sweep::build_case("c01w", spec, &db, &ts, &seq)?;
+            c.name = format!("wide-{name}:{}", crate::world::spec_name(spec));
+            Some(c)
+        })
+        .collect()
+}
+
 pub fn jobs(tier: Tier) -> Vec<Job> {
     let mut v = Vec::new();
     let spec = SpecId::CANCUN;
+    for spec in [SpecId::CANCUN, SpecId::PRAGUE] {
+        for c in &wide_blocks(spec) {
+            if spec == SpecId::CANCUN && tier == Tier::Quick && !c.name.contains("mixed") && !c.name.contains("lifecycle") {
+                continue;
+            }
+            for w in [2usize, 3, 4] {
+                if tier == Tier::Quick && w == 4 {
+                    continue;
+                }
+                v.push(pipeline_job("c01-wide", c, &RunCfg::parallel(w), COARSE, 1, false));
+                if tier == Tier::Thorough && w <= 3 {
+                    v.push(pipeline_job("c01-wide", c, &RunCfg::parallel(w), COARSE, 2, true));
+                }
+                if tier == Tier::Quick && w == 2 && spec == SpecId::PRAGUE && !c.name.contains("invalid") {
+                    v.push(pipeline_job("c01-wide", c, &RunCfg::parallel(w), COARSE, 2, true));
+                }
+            }
+        }
+    }
     for c in &deep_blocks(spec) {
         let run = RunCfg::parallel(2);
         match tier {
